@@ -104,7 +104,7 @@ func c12Run(c *Ctx, tp *tape.Tape, extra map[string]any) *Failure {
 	A, B := ga.ToConf(true), gb.ToConf(false)
 	code := cisco.RenderNetspoc(B)
 	w, err := world.New(c.Root, world.Opts{Model: "IOS", Files: map[string]string{"router": code, "fw2": code},
-		CheckBanner: "NetSPoC", Timeout: 4, LoginTO: 4})
+		CheckBanner: "NetSPoC", Timeout: 30, LoginTO: 30})
 	if err != nil {
 		c.T.Fatal(err)
 	}
